@@ -231,6 +231,14 @@ class RopeProject:
         self.steps = getattr(self, "steps", []) + [(path, offset, new_name)]
         return dict(self.files)
 
+    def reopen(self):
+        """a fresh rope project on the same tree: what rope inferred while answering earlier queries (it can go
+        stale or be overwritten: findings C02-answer-depends-on-query-history, C02-stale-attribute-after-edit) must
+        not decide the answer to the next one; sessions, whose subject is exactly such state, do not reopen"""
+        from rope.base.project import Project
+        self.project.close()
+        self.project = Project(self.dir, ropefolder=None)
+
     def rename(self, path, offset, new_name, perform=True):
         """dict: kind = refused | raised | changes ; for changes: local, contents {path: new text}, moves
         [(old path, new path)], after {path: text} = the tree on disk after project.do, restored = undo gave the
@@ -238,6 +246,8 @@ class RopeProject:
         from rope.base import exceptions
         from rope.base.change import ChangeContents, MoveResource
         from rope.refactor import rename as rmod
+        if not getattr(self, "steps", None):
+            self.reopen()
         res = self.project.get_resource(path) if path is not None else None
         o = {}
         try:
